@@ -1517,8 +1517,21 @@ func (e *c12Env) runCase(f []string) string {
 			// completed was re-issued behind a later write of the key (LATE) — it would resurrect the session.
 			t, _ := strconv.Atoi(a[1])
 			i, _ := strconv.Atoi(a[2])
+			// whose write is ticket t?  Decided BEFORE anything is touched: bringing a queued ticket to the store lets
+			// the earlier writes of ITS key through, which must not happen for an op that is then skipped (the
+			// generator's ticket numbers are approximate, so t may belong to another session than i)
+			tkey := ""
+			if p := e.tickets[t]; p != nil {
+				tkey = p.key
+			} else if w, ok := e.unarrived[t]; ok {
+				tkey = w.key
+			}
+			if tkey != c12SessID(i) || !e.p.live(i) {
+				out = append(out, "skip")
+				continue
+			}
 			pt := e.bring(t)
-			if pt == nil || !e.p.live(i) || pt.key != c12SessID(i) {
+			if pt == nil || pt.key != c12SessID(i) {
 				out = append(out, "skip")
 				continue
 			}
